@@ -670,6 +670,12 @@ Congruences_Reduction<D1, D2>::product_reduce(D1& d1, D2& d2) {
       }
     }
   }
+  // Refining a component with the equalities of the other one
+  // may have made it empty: propagate the emptiness.
+  if (d1.is_empty() || d2.is_empty()) {
+    Parma_Polyhedra_Library::Smash_Reduction<D1, D2> sr;
+    sr.product_reduce(d1, d2);
+  }
 }
 
 template <typename D1, typename D2>
